@@ -25,38 +25,15 @@ Definition views_of (hs : list hop) : list cview :=
 Definition run_history (inp : list Z) : list Z :=
   flat_map enc_cview (views_of (dec_history inp)).
 
-(* (reservation uid, dimension) pairs in which an update grew the restricted dimensions of a
-   reservation whose assigned pods hold requests there — the shape of finding 1 *)
-Definition grown_op (c : cache) (o : cop) : list (Z * Z) :=
-  match o with
-  | CUpdate _ _ s =>
-    match find_info (s_uid s) (infos c) with
-    | Some i =>
-      map (fun k => (s_uid s, k))
-          (filter (fun k => negb (memZ k (r_names i)
-                                  || (sumZ (map (fun q : preq => getv k (snd q)) (r_assigned i)) =? 0)))
-                  (names_of s))
-    | None => []
-    end
-  | _ => []
-  end.
-Fixpoint grown_along (c : cache) (l : list cop) : list (Z * Z) :=
-  match l with
-  | [] => []
-  | o :: t => grown_op c o ++ grown_along (cstep c o) t
-  end.
-
-(* per entry point: (node names stable so far, grown pairs so far) *)
-Fixpoint flags (c : cache) (st : bool) (g : list (Z * Z)) (hs : list hop)
-  : list (bool * list (Z * Z)) :=
+(* per entry point: node names stable so far (hypothesis of clauses 3, 4, 6) *)
+Fixpoint flags (c : cache) (st : bool) (hs : list hop) : list bool :=
   match hs with
   | [] => []
   | h :: t =>
     let st' := st && all_along node_stable_op c (lower h) in
-    let g' := g ++ grown_along c (lower h) in
-    (st', g') :: flags (hstep c h) st' g' t
+    st' :: flags (hstep c h) st' t
   end.
-Definition flags_of (hs : list hop) := flags init_cache true [] hs.
+Definition flags_of (hs : list hop) := flags init_cache true hs.
 
 Definition dec_views (n : nat) (obs : list Z) : list cview := fst (decode_many dec_cview n obs).
 
@@ -75,20 +52,14 @@ Definition claim_ok (cl : option (Z * Z)) (o : cview) : bool :=
             (o_infos o)
   end.
 
-Notation flag := (bool * list (Z * Z))%type.
-
 (* clause 8: the current owner of an operating pod is assigned *)
-Definition step_code (h : hop) (f : flag) (v : cview) : Z :=
-  let c := prop_view (fst f) v in
-  if c =? 0 then (if claim_ok (owner_claim h) v then 0 else 8) else c.
-Definition step_code_weak (h : hop) (f : flag) (v : cview) : Z :=
-  let c := prop_view_weak (fst f) v in
+Definition step_code (h : hop) (st : bool) (v : cview) : Z :=
+  let c := prop_view st v in
   if c =? 0 then (if claim_ok (owner_claim h) v then 0 else 8) else c.
 
-Fixpoint codes (sc : hop -> flag -> cview -> Z) (hs : list hop) (fl : list flag) (vs : list cview)
-  : list Z :=
+Fixpoint codes (hs : list hop) (fl : list bool) (vs : list cview) : list Z :=
   match hs, fl, vs with
-  | h :: hs', f :: fl', v :: vs' => sc h f v :: codes sc hs' fl' vs'
+  | h :: hs', f :: fl', v :: vs' => step_code h f v :: codes hs' fl' vs'
   | _, _, _ => []
   end.
 
@@ -96,33 +67,11 @@ Definition prop_history (inp obs : list Z) : Z :=
   if crashed obs then 99
   else
     let hs := dec_history inp in
-    first_nonzero (codes step_code hs (flags_of hs) (dec_views (length hs) obs)).
+    first_nonzero (codes hs (flags_of hs) (dec_views (length hs) obs)).
 
-Definition pair_mem (p : Z * Z) (l : list (Z * Z)) : bool :=
-  existsb (fun q : Z * Z => (fst q =? fst p) && (snd q =? snd p)) l.
-Definition exact_fail_pairs (v : iview) : list (Z * Z) :=
-  map (fun pk : nat * Z => (v_uid v, snd pk))
-      (filter (fun pk : nat * Z =>
-                 negb (nthZ (fst pk) (v_allocated v) =? held_view v (fst pk) (snd pk)))
-              positions).
-
-(* 1 = the first failing clause is "ledger exact" and every failing (reservation, dimension)
-   was grown by an earlier update (finding C05-update-grows-dimension); 0 otherwise *)
-Fixpoint sig_steps (hs : list hop) (fl : list flag) (vs : list cview) : Z :=
-  match hs, fl, vs with
-  | h :: hs', f :: fl', v :: vs' =>
-    let code := step_code h f v in
-    if code =? 0 then sig_steps hs' fl' vs'
-    else if (code =? 1)
-            && forallb (fun q => pair_mem q (snd f)) (flat_map exact_fail_pairs (o_infos v))
-    then 1 else 0
-  | _, _, _ => 0
-  end.
-Definition sig_history (inp obs : list Z) : Z :=
-  if crashed obs then 0
-  else
-    let hs := dec_history inp in
-    sig_steps hs (flags_of hs) (dec_views (length hs) obs).
+(* no known finding shape is left for this stream (finding 1 was repaired by 75e0c17): every
+   failure of the decision procedure is a violation *)
+Definition sig_history (inp obs : list Z) : Z := 0.
 
 (* non-trivial: at least three entry points, and at some point a cached reservation has a
    pod assigned *)
